@@ -158,8 +158,36 @@ C03_UNITS = _c03_one_draw() + [
 ]
 
 
+def _c06():
+    out = []
+    for t, T in (("norm", "ZIG_NORM"), ("exp", "ZIG_EXP")):
+        for k, (lo, hi) in zip("abcd", ((0, 64), (64, 128), (128, 192), (192, 256))):
+            out.append(plain("c06_%s_table_%s" % (t, k), "c06", ["C06"], "%s_X / %s_F / %s_R entries %d..%d" % (T, T, T, lo, hi), "src/ziggurat_tables.rs", [],
+                             "X[256]==0, F[256]==1, X[1]==R, X strictly decreasing, F strictly increasing, |F[i]-pdf(X[i])|<=1e-14, layer areas equal v=X[0]*F[1] to 1e-8 rel"
+                             + (", base strip + tail == v" if k == "a" else "") + " (concrete constants: exhaustive)", timeout=1200))
+    out.append(plain("c06_normal_step", "c06", ["C06", "C03"], "utils::ziggurat + StandardNormal::sample (one iteration)", "src/utils.rs", [("words", "words4")],
+                     "for every word: not NaN; |x| <= X[i] for i>0; i==0: |x| <= X[0] or |x| >= R; sign(x) == sign(u)", kind="bounded", tier="thorough", timeout=3600, extra=["--no-unwinding-checks"],
+                     bound="one execution of the ziggurat loop body and of the normal tail loop body (unwind 1, no unwinding assertion); inductive because every iteration starts from the same state (&self immutable, locals re-assigned)",
+                     stubs=["exp", "log"], replay={"kind": "sampler", "id": "standard_normal", "float": "f64"}))
+    for nm, sign in (("c06_normal_tail_pos", "+"), ("c06_normal_tail_neg", "-")):
+        out.append(plain(nm, "c06", ["C06", "C03"], "StandardNormal::sample tail branch (zero_case), u %s" % sign, "src/normal.rs", [("tailwords", "words2")],
+                         "for every pair of tail words: not NaN, |x| >= R, sign(x) == sign(u) (first word fixed: layer 0, |u| at its extreme)", kind="bounded", timeout=1800, extra=["--no-unwinding-checks"],
+                         bound="one iteration of the tail loop (unwind 2, no unwinding assertion); first word concrete", stubs=["exp", "log"],
+                         replay={"kind": "sampler", "id": nm[4:], "float": "f64"}))
+    out.append(plain("c06_exp_step", "c06", ["C06", "C03"], "utils::ziggurat + Exp1::sample (one iteration)", "src/utils.rs", [("words", "words4")],
+                     "for every word: not NaN; x > 0; x <= X[i] for i>0; i==0: x <= X[0] or x >= R; finite unless the tail uniform is exactly 0 (known finding)", kind="bounded", tier="thorough", timeout=3600, extra=["--no-unwinding-checks"],
+                     bound="one execution of the ziggurat loop body (unwind 1, no unwinding assertion); inductive because every iteration starts from the same state",
+                     stubs=["exp", "log"], replay={"kind": "sampler", "id": "exp1", "float": "f64"}))
+    out.append(dict(plain("kf_exp1_tail_inf", "c06", ["C03"], "Exp1::sample", "src/exponential.rs", [], "pinned known finding: Exp1 tail returns +inf when its uniform draw is exactly 0",
+                          extra=["--no-unwinding-checks"], stubs=["exp", "log"]), expect="refuted"))
+    return out
+
+
+C06_UNITS = _c06()
+
+
 def all_units():
-    return c04_units() + C04_EXTRA + C03_UNITS
+    return c04_units() + C04_EXTRA + C03_UNITS + C06_UNITS
 
 
 # ------------------------------------------------------------------ native replay dispatcher (generated Rust)
